@@ -33,7 +33,9 @@ pub fn gen(tier: &str, seed: u64, emit: &mut dyn FnMut(String)) {
         null(&mut m, &mut rng);
         let warm = m.bytes(); m.pkts.clear();
         for _ in 0..rng.range(3, 20) {
-            match rng.below(6) {
+            match rng.below(7) {
+                // payload-less packets (e.g. the PCR carried on a table PID) between the repetitions of that table
+                6 => { let pid = if rng.chance(1, 3) { 0 } else { progs[rng.below(progs.len() as u64) as usize].pmt_pid }; let pcr = rng.next(); m.af_only(pid, Some(pcr), &mut rng); }
                 0 => m.psi(0, &pat, 0, 0, &mut rng),
                 1 => { let j = rng.below(progs.len() as u64) as usize; m.psi(progs[j].pmt_pid, &pmts[j], 0, rng.below(2), &mut rng); }
                 2 => null(&mut m, &mut rng),
